@@ -21,9 +21,9 @@ pub fn prop() -> Prop {
             Sub::enumerate("circles", circles),
             Sub::enumerate("ellipses", ellipses),
             Sub::enumerate("rrect_equivalences", rrect_equiv),
-            Sub::tape("rrect_random", 24, 30_000, 800_000, rrect_random),
+            Sub::tape("rrect_random", 24, 200_000, 3_000_000, rrect_random),
             Sub::enumerate("sector_grid", sector_grid).with_fp(),
-            Sub::tape("sectors_random", 10, 10_000, 400_000, sectors_random).with_fp(),
+            Sub::tape("sectors_random", 10, 60_000, 900_000, sectors_random).with_fp(),
         ],
     }
 }
